@@ -428,6 +428,9 @@ TIES = {
                           cxx='print(os, t), printer<T>::print, streamer<>::print for streamable values, pairs, tuples, collections, opaque objects (mock.hpp)'),
     'Mkarg': dict(props=['C09', 'C19'], gen=['ArgInRange', 'ArgOutOfRange', 'Mkarg'], theorems=['mkarg_tie', 'underscore_k'],
                   cxx='mkarg<N> and the two arg<N> overloads (mock.hpp): what _k is bound to'),
+    'Routing': dict(props=['C03', 'C15', 'C16'], gen=['SendReport', 'SendOkReport', 'ReporterSend', 'ReporterSendOk', 'TimesAction'],
+                    theorems=['send_report_route', 'send_ok_report_route', 'times_action_tie'],
+                    cxx='send_report, send_ok_report, reporter<T>::send / sendOk, times::action (mock.hpp)'),
     'Ring': dict(props=['C14'], gen=['RingUnlink', 'RingElemDtor', 'RingMoveAssign', 'RingPushFront', 'RingPushBack', 'RingBegin', 'RingEnd',
                                     'RingIterIncr', 'RingIsLinked', 'RingListDtor'],
                  theorems=['ring_unlink_tie', 'ring_elem_dtor_tie', 'ring_move_assign_tie', 'ring_push_front_tie', 'ring_push_back_tie',
